@@ -241,8 +241,9 @@ def tlc_run(wd, module, cfg=None, env=None, workers=1, timeout=1800, xmx='3g', e
     cfg = cfg or module
     e = dict(os.environ)
     e.update(env or {})
+    # TLC leaves an empty tlc-<n> directory in java.io.tmpdir per run: keep them inside this run's metadir (removed below)
     cmd = (f"{_java(xmx, 1 if workers == 1 else 4)} -workers {workers} -metadir {md} {extra} "
-           f"-config {cfg}.cfg {module}.tla")
+           f"-config {cfg}.cfg {module}.tla").replace("java ", f"java -Djava.io.tmpdir={md} ", 1)
     try:
         rc, out = sh(cmd, timeout=timeout, cwd=sd, env=e)
     except subprocess.TimeoutExpired:
